@@ -1073,6 +1073,30 @@ def b_utri_in(src):
 
 incell("UtriangleQsparse", b_utri_in, _mk_utri)
 
+
+def b_sparse_herm_product_in(src):
+    """Conformable products that involve the conjugate transpose of a NON-SQUARE sparse matrix: S^H X (X with as many
+    rows as S), Y S^H (Y with as many columns as S has), S^H S and S S^H - all inside the domain of the product."""
+    k = src.i(1, 4)
+    m, n = src.pick([(k, k + src.i(1, 3)), (k + src.i(1, 3), k), (1, k + 1), (k + 1, 1)])
+    c = src.i(1, 3)
+    return {"A": src.q(m, n), "B": src.q(m, c), "T": src.q(c, n), "kind": "tall" if m > n else "wide"}
+
+
+def _mk_sparse_herm_product(p):
+    def run():
+        Sm = S(p["A"])
+        SH = L.utils.quat_hermitian(Sm)
+        r1 = L.utils.quat_matmat(SH, Q(p["B"]))          # (n x m)(m x c)
+        r2 = L.utils.quat_matmat(Q(p["T"]), SH)          # (c x n)(n x m)
+        r3 = SH @ Sm                                     # (n x m)(m x n)
+        r4 = Sm @ SH                                     # (m x n)(n x m)
+        return r1, r2, r3, r4
+    return [p["A"], p["B"], p["T"]], run
+
+
+incell("SparseQuaternionMatrix^H products (non-square)", b_sparse_herm_product_in, _mk_sparse_herm_product)
+
 # ----------------------------------------------------------------------------
 # checks
 
